@@ -134,28 +134,53 @@ type ListConfig struct {
 	IndentLevel  int        // 缩进级别（0-8）
 }
 
-// 全局编号管理器
-var globalNumberingManager *NumberingManager
-
-// NumberingManager 编号管理器
+// NumberingManager 编号管理器（每个文档一个）
 type NumberingManager struct {
 	nextAbstractNumID int
 	nextNumID         int
 	abstractNums      map[string]*AbstractNum
 	numInstances      map[string]*NumInstance
+	// 打开的文档原有的编号部件；新的定义追加到它里面，原有的定义保持不变
+	basePart []byte
 }
 
-// getNumberingManager 获取全局编号管理器
-func getNumberingManager() *NumberingManager {
-	if globalNumberingManager == nil {
-		globalNumberingManager = &NumberingManager{
-			nextAbstractNumID: 0,
-			nextNumID:         1,
-			abstractNums:      make(map[string]*AbstractNum),
-			numInstances:      make(map[string]*NumInstance),
+// getNumberingManager 获取本文档的编号管理器。
+// 文档已经带有编号定义时（打开的文档、由模板克隆的文档），新的ID从已有ID之后开始，
+// 已有的定义在更新编号部件时原样保留。
+func (d *Document) getNumberingManager() *NumberingManager {
+	if d.numberingManager != nil {
+		return d.numberingManager
+	}
+	manager := &NumberingManager{
+		nextAbstractNumID: 0,
+		nextNumID:         1,
+		abstractNums:      make(map[string]*AbstractNum),
+		numInstances:      make(map[string]*NumInstance),
+	}
+	if existing, ok := d.parts["word/numbering.xml"]; ok {
+		if children, wellFormed := scanRootChildren(existing); wellFormed {
+			found := false
+			for _, child := range children {
+				switch child.Local {
+				case "abstractNum":
+					found = true
+					if id, err := strconv.Atoi(child.Attrs["abstractNumId"]); err == nil && id >= manager.nextAbstractNumID {
+						manager.nextAbstractNumID = id + 1
+					}
+				case "num":
+					found = true
+					if id, err := strconv.Atoi(child.Attrs["numId"]); err == nil && id >= manager.nextNumID {
+						manager.nextNumID = id + 1
+					}
+				}
+			}
+			if found {
+				manager.basePart = append([]byte(nil), existing...)
+			}
 		}
 	}
-	return globalNumberingManager
+	d.numberingManager = manager
+	return manager
 }
 
 // AddListItem 添加列表项
@@ -168,7 +193,8 @@ func (d *Document) AddListItem(text string, config *ListConfig) *Paragraph {
 		}
 	}
 
-	// 确保编号管理器已初始化
+	// 确保编号管理器已初始化（先取得管理器，它需要看到文档原有的编号部件）
+	d.getNumberingManager()
 	d.ensureNumberingInitialized()
 
 	// 获取或创建编号定义
@@ -277,7 +303,7 @@ func (d *Document) initializeNumbering() {
 
 // getOrCreateNumbering 获取或创建编号定义
 func (d *Document) getOrCreateNumbering(config *ListConfig) string {
-	manager := getNumberingManager()
+	manager := d.getNumberingManager()
 
 	// 生成抽象编号键
 	abstractKey := fmt.Sprintf("%s_%s_%d", config.Type, config.BulletSymbol, config.IndentLevel)
@@ -374,7 +400,7 @@ func (d *Document) createLevel(levelIndex int, config *ListConfig) *Level {
 
 // updateNumberingFile 更新编号定义文件
 func (d *Document) updateNumberingFile() {
-	manager := getNumberingManager()
+	manager := d.getNumberingManager()
 
 	numbering := &Numbering{
 		Xmlns:              "http://schemas.openxmlformats.org/wordprocessingml/2006/main",
@@ -390,6 +416,14 @@ func (d *Document) updateNumberingFile() {
 	// 添加所有编号实例
 	for _, numInstance := range manager.numInstances {
 		numbering.NumberingInstances = append(numbering.NumberingInstances, numInstance)
+	}
+
+	// 文档原有的编号部件：把新的定义追加进去，原有的定义保持不变
+	if manager.basePart != nil {
+		if merged, ok := mergeNumberingIntoPart(manager.basePart, numbering); ok {
+			d.parts["word/numbering.xml"] = merged
+			return
+		}
 	}
 
 	// 序列化
@@ -421,7 +455,7 @@ func (d *Document) addNumberingRelationship() {
 func (d *Document) RestartNumbering(numID string) {
 	// 重置编号计数器
 	// 在实际实现中，需要创建新的编号实例来重置计数
-	manager := getNumberingManager()
+	manager := d.getNumberingManager()
 
 	// 创建新的编号实例
 	newNumID := strconv.Itoa(manager.nextNumID)
@@ -438,4 +472,45 @@ func (d *Document) RestartNumbering(numID string) {
 		manager.numInstances[newNumID] = newInstance
 		d.updateNumberingFile()
 	}
+}
+
+// mergeNumberingIntoPart 把新的抽象编号和编号实例追加到已有的编号部件中：
+// 抽象编号插入到第一个 w:num 之前，编号实例插入到根元素结束之前
+func mergeNumberingIntoPart(base []byte, numbering *Numbering) ([]byte, bool) {
+	children, wellFormed := scanRootChildren(base)
+	if !wellFormed {
+		return nil, false
+	}
+	var abstractFragment, numFragment []byte
+	for _, abstractNum := range numbering.AbstractNums {
+		fragment, err := xml.Marshal(abstractNum)
+		if err != nil {
+			return nil, false
+		}
+		abstractFragment = append(abstractFragment, bindWordNamespace(fragment, "w:abstractNum")...)
+	}
+	for _, numInstance := range numbering.NumberingInstances {
+		fragment, err := xml.Marshal(numInstance)
+		if err != nil {
+			return nil, false
+		}
+		numFragment = append(numFragment, bindWordNamespace(fragment, "w:num")...)
+	}
+	firstNum := -1
+	for _, child := range children {
+		if child.Local == "num" {
+			firstNum = child.Start
+			break
+		}
+	}
+	merged, ok := appendToRoot(base, numFragment)
+	if !ok {
+		return nil, false
+	}
+	if firstNum >= 0 {
+		return insertIntoRoot(merged, abstractFragment, firstNum)
+	}
+	// 没有编号实例：抽象编号也放在根元素结束之前，但要位于新的编号实例之前
+	merged, ok = appendToRoot(base, append(abstractFragment, numFragment...))
+	return merged, ok
 }
